@@ -25,7 +25,7 @@ def canon(line):
     return " | ".join([head + (" " + raw_ops if raw_ops else "")] + segs)
 
 
-def run_walks(seed, tier, label, n_quick, n_thorough, adversarial=False, strict=False, length=80):
+def run_walks(seed, tier, label, n_quick, n_thorough, adversarial=False, strict=False, length=80, snap_after_svc=False):
     rng = Rng(seed, "walks:" + label)
     n = n_quick if tier == "quick" else n_thorough
     h = Proc([HARNESS_BIN], "harness")
@@ -34,7 +34,7 @@ def run_walks(seed, tier, label, n_quick, n_thorough, adversarial=False, strict=
         for i in range(n):
             h.ask("session.reset")
             w = Walk(Rng(seed, f"walk:{label}:{i}"), h, adversarial=adversarial or (i % 3 == 2), strict_driver=strict,
-                     length=rng.choice([40, length, length * 2, length * 4]))
+                     length=rng.choice([40, length, length * 2, length * 4]), snap_after_svc=snap_after_svc or (i % 4 == 1))
             w.run()
             walks.append(w)
     finally:
@@ -84,3 +84,29 @@ def correspondence(report, walks, prop, label="corr:engine"):
         w = walks[0]
         report.sample({"script": w.script[:12], "impl": w.out[:12]})
     return ok
+
+
+def monitor(report, walks, prop, digests=None):
+    """run the property's monitor over every walk; findings carry the script prefix as replay"""
+    import monitors as M
+    ok = True
+    fn = M.MONITORS[prop]
+    for w in walks:
+        if not hasattr(w, "digest"):
+            w.digest = M.digest(w)
+        for clause, detail, step in fn(w, w.digest):
+            ok = False
+            sig = {"clause": clause}
+            sig.update(classify(prop, clause, detail, w, step))
+            report.add_finding(Finding(prop, "mon:" + prop, sig, detail,
+                                       w.script[:step + 1] + ["# impl: " + w.out[step][:400], "# " + detail]))
+    report.obligation("mon:" + prop, "monitor", ok, f"{len(walks)} implementation traces judged")
+    return ok
+
+
+def classify(prop, clause, detail, w, step):
+    """stable, structural part of a finding's signature (used to match known findings)"""
+    sig = {}
+    verb = w.script[step].split(" ")[0] if step < len(w.script) else ""
+    sig["verb"] = verb
+    return sig
